@@ -157,6 +157,16 @@ inline bool check_wire(coap_pdu_t *pdu, Model &md, ref::Framing f, Info *info, c
   if (!rr.ok) { info->fail("%s: serialised bytes are not well-formed: %s", when, rr.why); return false; }
   std::string df = lc::diff(rr.msg, exp.m, f == ref::F_UDP);
   if (!df.empty()) { info->fail("%s: reference decoding differs from model: %s", when, df.c_str()); return false; }
+  // a stream transport has to find the end of the message first: de-frame the way coap_read_session() does (fixed header + token
+  // length extension bytes -> coap_pdu_parse_size()), the result must be exactly this serialisation
+  if (f == ref::F_TCP) {
+    size_t h = coap_pdu_parse_header_size(proto, wire);
+    size_t tkl = wire[0] & 0x0f;
+    size_t te = tkl == COAP_TOKEN_EXT_1B_TKL ? 1 : tkl == COAP_TOKEN_EXT_2B_TKL ? 2 : 0;
+    if (h != hs || h + te > wl) { info->fail("%s: coap_pdu_parse_header_size() says %zu, the header written has %zu bytes", when, h, hs); return false; }
+    size_t sz = coap_pdu_parse_size(proto, wire, h + te);
+    if (h + sz != wl) { info->fail("%s: stream de-framing computes a message of %zu+%zu bytes, the serialisation has %zu", when, h, sz, wl); return false; }
+  }
   // libcoap's parser on an exact-size copy
   uint8_t *exact = (uint8_t *)malloc(wl);
   memcpy(exact, wire, wl);
